@@ -36,6 +36,9 @@ _r_partial_array = re.compile(r"\[\s*\.\.\.\s*\]")
 _r_words = re.compile(r"\w+|\S")
 _parser_cache = None
 _r_int_literal = re.compile(r"-?0?x?[0-9a-f]+[lu]*$", re.IGNORECASE)
+_simple_escapes = {'a': 7, 'b': 8, 'f': 12, 'n': 10, 'r': 13, 't': 9, 'v': 11,
+                   '0': 0, '1': 1, '2': 2, '3': 3, '4': 4, '5': 5, '6': 6,
+                   '7': 7}
 _r_stdcall1 = re.compile(r"\b(__stdcall|WINAPI)\b")
 _r_stdcall2 = re.compile(r"[(]\s*(__stdcall|WINAPI)\b")
 _r_cdecl = re.compile(r"\b__cdecl\b")
@@ -904,6 +907,10 @@ class Parser:
                 raise CDefError("invalid constant %r" % (s,))
             elif s[0] == "'" and s[-1] == "'" and (
                     len(s) == 3 or (len(s) == 4 and s[1] == "\\")):
+                if len(s) == 4:
+                    # '\n' is 10, not ord('n'); other characters stand
+                    # for themselves, like '\\' and '\''
+                    return _simple_escapes.get(s[2], ord(s[2]))
                 return ord(s[-2])
             else:
                 raise CDefError("invalid constant %r" % (s,))
